@@ -105,6 +105,15 @@ func (pConn *PFCPConn) startHeartBeatMonitor() {
 		case <-pConn.hbReset:
 			heartBeatExpiryTimer.Reset(pConn.upf.hbInterval)
 		case <-heartBeatExpiryTimer.C:
+			// A heartbeat from the peer that came in while this loop was busy (waiting for
+			// the answer to its own request) is still pending: it postpones this heartbeat, too.
+			select {
+			case <-pConn.hbReset:
+				heartBeatExpiryTimer.Reset(pConn.upf.hbInterval)
+				continue
+			default:
+			}
+
 			logger.PfcpLog.Debugln("HeartBeat Interval Timer Expired", pConn.RemoteAddr().String())
 
 			r := pConn.getHeartBeatRequest()
